@@ -144,6 +144,12 @@ func bufprop(r *simkit.Run, prop string) {
 		}
 		ex.chunked = rapid.Bool().Draw(rt, "chunked")
 		ex.unframed = ex.chunked && rapid.IntRange(0, 3).Draw(rt, "undeclared-length-not-chunked") == 0
+		if !ex.chunked && cfg.maxReq > 0 && ex.bodyLen > cfg.maxReq && rapid.IntRange(0, 2).Draw(rt, "length-understated") == 0 {
+			// the declared length is within the maximum, the body that arrives is not (a middleware in front replaced
+			// the body - inflated it, say - and left the old length): over the limit is over the limit
+			ex.declared = rapid.IntRange(1, cfg.maxReq).Draw(rt, "declared-length")
+			r.Fault("declared-length-understates-the-body")
+		}
 		ex.writerKind = rapid.SampledFrom([]string{"", "", "", "hijack-refused", "plain"}).Draw(rt, "client-writer")
 		ex.breakAfter = -1
 		if rapid.IntRange(0, 5).Draw(rt, "client-goes-away") == 0 {
